@@ -1,0 +1,55 @@
+//! Verification hooks (compiled only with `--cfg egglog_verif`): relaxed counters
+//! recording which implementation paths ran. Coverage evidence only; nothing in
+//! the crate reads them.
+use std::sync::atomic::{AtomicU64, Ordering};
+
+macro_rules! counters {
+    ($($name:ident),* $(,)?) => {
+        #[allow(non_camel_case_types)]
+        #[derive(Clone, Copy, Debug)]
+        #[repr(usize)]
+        pub enum Path { $($name),* }
+        pub const NAMES: &[&str] = &[$(stringify!($name)),*];
+    };
+}
+
+counters!(
+    plan_single,
+    plan_decomposed,
+    plan_decomposed_bags,
+    plan_dynamic_resort,
+    table_serial_insert,
+    table_parallel_insert,
+    table_parallel_delete,
+    table_serial_delete,
+    table_rehash,
+    table_parallel_rehash,
+    table_rebuild_incremental,
+    table_rebuild_nonincremental,
+    table_rebuild_nonincremental_parallel,
+    table_refresh_rows_for_values,
+    container_rebuild_incremental,
+    container_rebuild_nonincremental,
+    container_rebuild_nonincremental_parallel,
+);
+
+static COUNTS: [AtomicU64; 17] = [const { AtomicU64::new(0) }; 17];
+
+#[inline]
+pub fn count(p: Path) {
+    COUNTS[p as usize].fetch_add(1, Ordering::Relaxed);
+}
+
+#[inline]
+pub fn add(p: Path, n: u64) {
+    COUNTS[p as usize].fetch_add(n, Ordering::Relaxed);
+}
+
+/// Current value of every counter, by name.
+pub fn snapshot() -> Vec<(&'static str, u64)> {
+    NAMES
+        .iter()
+        .enumerate()
+        .map(|(i, n)| (*n, COUNTS[i].load(Ordering::Relaxed)))
+        .collect()
+}
